@@ -345,9 +345,9 @@ void HARNESS(void) { VIN(vin_t);
 UNITS.append(U(
     name='ref_parse_cookies_v0', props=['C02'], kind='bounded', src=['htp_cookies.c'], link=['bstr.c', 'htp_util.c'], replay='vin',
     pre=COOKIE_PRE, contracts_inc=['line_ref.h', 'c02_extract.h'], harness=COOKIE_H,
-    defs={'quick': mk({'N': 5, 'C02_COOKIE_STUBS': 1}), 'thorough': {'N': 7}},
-    flags_add=['--unwind', '9', '--unwinding-assertions', '--memory-leak-check'], flags_del=['--unsigned-overflow-check'], timeout=(600, 3000),
-    bound='all Cookie header values of every length 0..N (quick N=5, thorough N=7) in a buffer of capacity N; with / without Cookie header; table creation failing or not',
+    defs={'quick': mk({'N': 4, 'C02_COOKIE_STUBS': 1}), 'thorough': {'N': 6}},
+    flags_add=['--unwind', '8', '--unwinding-assertions', '--memory-leak-check'], flags_del=['--unsigned-overflow-check'], timeout=(600, 3000),
+    bound='all Cookie header values of every length 0..N (quick N=4, thorough N=6) in a buffer of capacity N; with / without Cookie header; table creation failing or not',
     assumes=AB + ['htp_table_get_c / htp_table_create / htp_table_addn are replaced by logging stubs (lookup answers a given header, addn compares the pair it is given with the next cookie of the reference, takes '
                   'ownership and succeeds): wire order = call order; the table itself is C17; a FAILING htp_table_addn is not modelled (its result is ignored by the code: candidate leak, notes/c02.md)'],
     sub='real htp_parse_cookies_v0 + htp_parse_single_cookie_v0: the reported (name, value) pairs, in wire order, are byte-identical sub-ranges of the header value: pieces between ";", '
@@ -507,3 +507,56 @@ UNITS.append(U(
     assumes=['bounded: strings of length <= N over all byte values; real bstr_cmp_c / bstr_util_cmp_mem (bstr.c linked)'],
     sub='real htp_convert_method_to_number: each of the 28 documented method names maps to its enum htp_method_t number, NULL and every other string (case differences, prefixes, '
         'extensions included) to HTP_M_UNKNOWN'))
+
+# ======================================================================================================
+# 2. contract units (dfcc, symbolic length)
+# ======================================================================================================
+CD = {'quick': {'VCAP': 1024, 'C02_CONTRACTS': 1}, 'thorough': {'VCAP': 65536}}
+AC = ['line length <= VCAP (symbolic); objects are fresh and disjoint']
+
+
+def cu(name, src, harness, loops, sub, props=('C02', 'C01'), replace=(), link=(), defs=CD, assumes=AC, **kw):
+    UNITS.append(U(name=name, props=list(props), kind='contract', src=[src], enforce=name, contracts_inc=['c02_extract.h'], replace=list(replace), link=list(link),
+                   loops={src: {name: loops}} if loops else {}, harness=harness, defs=defs, sub=sub, assumes=assumes, **kw))
+
+
+cu('htp_chomp', 'htp_util.c', 'void HARNESS(void) { unsigned char *d; size_t *l; htp_chomp(d, l); CANARY(); }',
+   {'count': 1, 0: dict(assigns='*len, r', inv=['*len <= g_c02_len0', 'r >= 0 && r <= 2', '(r == 0) == (*len == g_c02_len0)',
+                                                 '(gk >= *len && gk < g_c02_len0) ==> C02_ISCRLF(data[gk])',
+                                                 '(gj >= *len && gj < g_c02_len0) ==> C02_ISCRLF(data[gj])'], dec='*len')},
+   'htp_chomp, any length: only the length is written; it shrinks by exactly the trailing CR / LF run (everything cut is CR or LF, the new last byte is neither); '
+   'result 0..2 and 0 iff nothing was removed; termination', min_obl=20)
+cu('htp_is_line_empty', 'htp_util.c', 'void HARNESS(void) { unsigned char *d; size_t l; htp_is_line_empty(d, l); CANARY(); }', None,
+   'htp_is_line_empty (loop-free): 1 exactly for CR, LF and CR LF; no read beyond the length', min_obl=8)
+cu('htp_is_line_whitespace', 'htp_util.c', 'void HARNESS(void) { unsigned char *d; size_t l; htp_is_line_whitespace(d, l); CANARY(); }',
+   {'count': 1, 0: dict(assigns='i', inv=['i <= len', '(gk < i) ==> ISSP(data[gk])'], dec='len - i')},
+   'htp_is_line_whitespace, any length: 1 iff every byte is white space (isspace set); termination', min_obl=15)
+cu('htp_connp_is_line_folded', 'htp_util.c', 'void HARNESS(void) { unsigned char *d; size_t l; htp_connp_is_line_folded(d, l); CANARY(); }', None,
+   'htp_connp_is_line_folded (loop-free): -1 on NULL / empty, else 1 iff the first byte is SP, HT or NUL (documented folding characters); reads only data[0]', min_obl=8)
+
+GROW = ['(h->flags & __CPROVER_loop_entry(h->flags)) == __CPROVER_loop_entry(h->flags)',
+        '(connp->out_tx->flags & __CPROVER_loop_entry(connp->out_tx->flags)) == __CPROVER_loop_entry(connp->out_tx->flags)']
+RH_LOOPS = {'count': 6,
+    0: dict(assigns='colon_pos', inv=['colon_pos <= len', '(gk < colon_pos) ==> data[gk] != 58'], dec='len - colon_pos'),
+    1: dict(assigns='prev, name_end, h->flags, connp->out_tx->flags',
+            inv=['prev == name_end', 'name_end <= colon_pos', '(gk >= name_end && gk < colon_pos) ==> ISSP(data[gk])'] + GROW, dec='prev'),
+    2: dict(assigns='value_start', inv=['value_start <= len', 'name_end <= value_start', '(gk >= name_end && gk < value_start) ==> (data[gk] == 58 || ISSP(data[gk]))'],
+            dec='len - value_start'),
+    3: dict(assigns='i, h->flags, connp->out_tx->flags', inv=['i <= name_end'] + GROW, dec='name_end - i'),
+    4: dict(assigns='i', inv=['i >= value_start', 'i <= value_end'], dec='value_end - i'),
+    5: dict(assigns='prev, value_end', inv=['value_end <= len', 'value_end >= 1', 'prev == value_end - 1', 'value_start <= value_end',
+                                           '(gk >= value_end && gk < len) ==> ISLWS(data[gk])'], dec='prev')}
+cu('htp_parse_response_header_generic', 'htp_response_generic.c',
+   'void HARNESS(void) { htp_connp_t *c; htp_header_t *h; unsigned char *d; size_t n; htp_parse_response_header_generic(c, h, d, n); CANARY(); }',
+   RH_LOOPS,
+   'htp_parse_response_header_generic for lines of ANY length: memory safety, termination; exactly two duplications, each source range inside the input line (asserted at the call), '
+   'name at offset 0 and before the value; every byte of the line outside the two reported ranges is a colon, white space or a line terminator (nothing dropped); '
+   'OK iff no allocation failed, then the header owns both copies; on ERROR every copy is released exactly once; flags only grow; frame = the header and the transaction flags',
+   props=('C02', 'C01', 'C18'), link=['htp_util.c'],
+   replace=['htp_chomp/contract_c02_chomp_site', 'htp_log/contract_c02_htp_log', 'bstr_dup_mem/contract_c02_dup_mem', 'bstr_free/contract_c02_bstr_free'],
+   defs={'quick': {'VCAP': 64, 'C02_CONTRACTS': 1, 'KNOWN_F_C02_RESP_HDR_LEN0': 1}, 'thorough': {'VCAP': 256}}, min_obl=100, timeout=(300, 1500),
+   assumes=['input: heap object of constant size VCAP, symbolic line length <= VCAP, only read',
+            'htp_chomp replaced by its contract (unit htp_chomp); htp_log replaced by a no-op contract; bstr_dup_mem replaced by the provenance-logging stub contract_c02_dup_mem '
+            '(precondition "source range lies inside the input line" asserted at every call; that the copy is byte-identical is C17 + the bounded units); bstr_free by an ownership-logging stub',
+            'htp_is_space / htp_is_lws / htp_is_token: the real code (htp_util.c linked)',
+            'KNOWN_F_C02_RESP_HDR_LEN0 (default on): the line is not empty after removing CR / LF (finding F1)'])
